@@ -110,6 +110,8 @@ public:
         if (p != "C09") o.subdiv_pm = approx ? 4 : 10;
         if (!approx && p != "C09") { o.mid_pm = p == "C02" ? 400 : 250; o.two_level_pm = 200; o.small_dense_pm = 50; }      // 13..17 vertices, nearly complete: dimension 60..120, candidate lists in the hundreds
         gen::GGraph g = gen::gen_graph(rng, o);
+        // magnitude family (C02 only): the same numerators at 2^-70..2^-55 or 2^40; sums stay exact, the optimum scales with them
+        if (p == "C02" && g.wtype == "double" && !g.inexact && rng.chance(60)) g.wexp += (int) rng.pick(std::vector<int> { -70, -60, -55, 40 });
         Json cs = Json::object();
         cs["graph"] = gen::to_json(g);
         int k = 1;
